@@ -45,7 +45,13 @@ Ast(src) == [cond |-> CondAst(src), ids |-> src.ids]
 TextOk(src) == ~IsErr(CondAst(src))
 
 (* a new case: a fresh rule text *)
-NewCase(c) == /\ cur' = (IF "src" \in DOMAIN c /\ IsText(c.src) THEN [ast |-> ParseText(c.src)] @@ c ELSE c)
+PinnedCalc(c, d) == LET srcs == <<c.src>> \o c.alts IN
+                    \A i \in DOMAIN srcs : Cardinality(LangVerdicts(srcs[i], c.docs[d])) = 1
+NeedsPin(c) == "src" \in DOMAIN c /\ "alts" \in DOMAIN c /\ c.alts # <<>> /\ "oracle" \in DOMAIN c /\ c.oracle
+                /\ c.src.cond.t # "text"
+NewCase(c) == /\ cur' = (IF "src" \in DOMAIN c /\ IsText(c.src) THEN [ast |-> ParseText(c.src)] @@ c
+                         ELSE IF NeedsPin(c) THEN [pin |-> [d \in DOMAIN c.docs |-> PinnedCalc(c, d)]] @@ c
+                         ELSE c)
               /\ phase' = "idle" /\ objs' = <<>> /\ den' = <<>> /\ prints' = <<>>
 
 
@@ -94,8 +100,8 @@ AllSrcs == <<cur.src>> \o (IF "alts" \in DOMAIN cur THEN cur.alts ELSE <<>>)
 (* Alternative sources are claimed to denote the same only where the rule language pins the     *)
 (* verdict of each of them on the document (e.g. of(X, 0) with some entries false and others    *)
 (* missing is left open, and its explicit form with `not` may differ there).                    *)
-Pinned(d) == ~HasOracle(cur) \/ "alts" \notin DOMAIN cur \/
-             \A i \in DOMAIN AllSrcs : Cardinality(LangVerdicts(AllSrcs[i], cur.docs[d])) = 1
+(* computed once per case (cur.pin) when the case has alternative sources and an oracle *)
+Pinned(d) == IF "pin" \in DOMAIN cur THEN cur.pin[d] ELSE TRUE
 (* documents that differ only in fields the rule does not address share a class (C16) *)
 DocCls(d) == IF "dcls" \in DOMAIN cur THEN cur.dcls[d] ELSE d
 DK(k, d) == <<Cls(k), IF Pinned(d) THEN 0 ELSE SrcIdx(k), DocCls(d)>>
